@@ -157,6 +157,14 @@ def rewritten_datasets(chk, r, tmp):
             chk.evaluated(len(want))
             if [int(x) for x in back["a"]] != want:
                 chk.violation(f"parquet/dask-{how}-of-datasets/dataset-dropped-or-reordered", dict(rep, names=list(names_), got=[int(x) for x in back["a"]], expected=want)); return
+        # a list that names a dataset twice, and a glob that matches a dataset the list already names: concatenated as listed
+        pa_, pb_ = os.path.join(ndir, names_[0]), os.path.join(ndir, names_[1])
+        a_rows, b_rows = [int(x) for x in parts_[0]["a"]], [int(x) for x in parts_[1]["a"]]
+        for arg, want2 in (([pa_, pb_, pa_], a_rows + b_rows + a_rows), ([pb_, pb_], b_rows + b_rows), ([pb_, os.path.join(ndir, "[ab]*.parq")], b_rows + a_rows + b_rows)):
+            back = read_parquet_dask(arg).compute()
+            chk.evaluated(len(want2))
+            if [int(x) for x in back["a"]] != want2:
+                chk.violation("parquet/dask-list-of-datasets/repeated-dataset-not-repeated", dict(rep, paths=[os.path.basename(x) for x in arg], got=[int(x) for x in back["a"]], expected=want2)); return
         ppath = os.path.join(tmp, "rewritten_pandas.parq")
         for step, n in enumerate((5, 11, 3)):
             df = make_frame(r, n, ["polygon"], ["float64"], "unnamed", "plain")
